@@ -17,7 +17,7 @@ import (
 	"github.com/facebookincubator/dns/dnsrocks/zzverif/nd"
 )
 
-//verif:harness H09_roundtrip property=C09 native=yes quick=from=0,to=9,v2=0,own=4,xs=1;from=9,to=17,v2=1,own=4,xs=1 thorough=from=0,to=9,v2=1,own=14,xs=1;from=9,to=17,v2=0,own=8,xs=2
+//verif:harness H09_roundtrip property=C09 native=yes quick=from=0,to=9,v2=0,own=4,xs=1;from=9,to=17,v2=1,own=4,xs=1;from=17,to=18,v2=1,own=1,xs=2 thorough=from=0,to=9,v2=1,own=14,xs=1;from=11,to=17,v2=0,own=8,xs=1;from=9,to=11,v2=0,own=2,xs=2
 
 var verifC09Templates = []string{
 	"Z%n,a.ns.ex,adm.ex,%d,,,,,%t,,%l",
@@ -37,6 +37,7 @@ var verifC09Templates = []string{
 	"!mm,10.0.0.0,%d,ab",
 	"B%n,t.ex,%t,%l,%d,port=53",
 	"H%n,t.ex,%t,%l,%d,alpn=h2",
+	"'t.ex,%x", // lean text line: the only free part is the text field (used with xs=2)
 }
 
 var verifOwnerBytes = []byte{'a', 'A', '\\', ',', 0xff, '*', ':', ' ', 0x00, 0x7f, '-', '_', '7', '.'}
@@ -53,10 +54,11 @@ func verifOctal(b byte) []byte {
 
 // verifExpand renders a template; sep replaces the ',' field separators.
 var verifDigits []byte // the %d digits of the last expansion, in order
+var verifRawText []byte // the raw bytes behind the %x field of the last expansion
 
 func verifExpand(tmpl string, sep byte) []byte {
 	var out []byte
-	verifDigits = nil
+	verifDigits, verifRawText = nil, nil
 	for i := 0; i < len(tmpl); i++ {
 		c := tmpl[i]
 		if c == ',' {
@@ -78,11 +80,12 @@ func verifExpand(tmpl string, sep byte) []byte {
 			if nd.Bool() {
 				out = append(out, '*', '.')
 			}
-		case 'x': // raw text bytes from the character-class pool (all byte values are C17's subject), quoted
+		case 'x': // raw text bytes, arbitrary (solver-chosen), quoted by the real Bquote
 			raw := make([]byte, nd.Param("xs"))
 			for k := range raw {
-				raw[k] = verifOwnerBytes[nd.Choice(len(verifOwnerBytes))]
+				raw[k] = nd.Byte()
 			}
+			verifRawText = raw
 			out = append(out, quote.Bquote(raw)...)
 		case 't', 'T', 'd': // decimal digits: %t absent or one, %T absent/one/two, %d exactly one
 			n := 1
@@ -101,8 +104,10 @@ func verifExpand(tmpl string, sep byte) []byte {
 			}
 		case 'l', 'L': // location: %l absent or two bytes, %L always two bytes
 			if tmpl[i] == 'L' || nd.Bool() {
-				out = append(out, verifOctal(nd.Byte())...)
-				out = append(out, verifOctal(nd.Byte())...)
+				// bound: location bytes 0..63 (leading octal digit 0; the digit selects a case
+				// of a switch in strconv.UnquoteChar and would split every path four ways)
+				out = append(out, verifOctal(nd.Byte()&0x3f)...)
+				out = append(out, verifOctal(nd.Byte()&0x3f)...)
 			}
 		}
 	}
@@ -134,6 +139,13 @@ func H09_roundtrip() {
 
 	r1, err := codec.DecodeLn(line)
 	nd.Assume(err == nil) // well-formed lines only
+	// meaning: the text field of the parsed record is the byte string that was written
+	switch x := r1.(type) {
+	case *Rtxt:
+		nd.Assert(bytes.Equal(x.txt, verifRawText), "text-field-means-the-quoted-bytes")
+	case *Raux:
+		nd.Assert(bytes.Equal(x.rdata, verifRawText), "generic-rdata-means-the-quoted-bytes")
+	}
 	m1, err := r1.MarshalMap()
 	nd.Assert(err == nil, "marshalmap-1")
 	tm1, ok := r1.(interface{ MarshalText() ([]byte, error) })
